@@ -110,7 +110,7 @@ func (g *Generator) Execute(outputDirPath string) (err error) {
 	}
 	od := filepath.Clean(outputDirPath)
 
-	dpkg := filepath.SplitList(od)[0]
+	dpkg := filepath.Base(od)
 
 	pkg := strings.ReplaceAll(dpkg, "-", "_")
 	if err = g.checkName(pkg); err != nil {
